@@ -35,6 +35,8 @@ def _child_run(run_seed, ops, opts):
     mod, S = _ctx["mod"], _ctx["S"]
     cfg = None
     boot.install_clock(1.7e9 + (run_seed % 100000) * 86400.0)      # simulated time, from the run seed
+    import warnings
+    warnings.simplefilter("ignore")
     opts = dict(opts)
     want_ops = opts.pop("_want_ops", False)
     deep = opts.pop("deep", False)
